@@ -374,6 +374,19 @@ class Ctx:
                             % (len(assum), subdir, ", ".join(ax) if ax else "closed under the global context"))
         self.extra.setdefault("print_assumptions", {}).update(assum)
         self.checker_cmd = "cd /verif/coq && make -j16 %s/Props.vo  (coq_makefile, Coq 8.16.1, full .vo build)" % subdir
+        if self.thorough and os.environ.get("VERIF_COQCHK", "1") != "0":
+            # independent re-check of the compiled property file and everything it depends on
+            r = subprocess.run(["timeout", "2400", "coqchk", "-silent", "-o", "-Q", ".", "RV", "RV.%s.Props" % subdir],
+                               cwd=COQ, capture_output=True, text=True)
+            out = r.stdout + r.stderr
+            m = re.search(r"\* Axioms:(.*?)\n\s*\n\* Constants/Inductives relying on type-in-type:(.*?)\n\s*\n\* Constants/Inductives relying on unsafe \(co\)fixpoints:(.*?)\n\s*\n\* Inductives whose positivity is assumed:(.*?)\n", out + "\n\n", re.S)
+            axioms = sorted(set(a.strip() for a in m.group(1).split("\n") if a.strip())) if m else []
+            clean = bool(m) and all("<none>" in m.group(i) for i in (2, 3, 4))
+            self.obligation("coqchk:RV.%s.Props (independent checker: no type-in-type, no unsafe fixpoints, no assumed positivity)" % subdir,
+                            r.returncode == 0 and clean, out[-1500:])
+            self.trusted.append("coqchk -o RV.%s.Props: axioms of everything loaded = %s" % (subdir, ", ".join(axioms) or "none"))
+            self.extra["coqchk_axioms"] = axioms
+            self.checker_cmd += " ; coqchk -silent -o -Q . RV RV.%s.Props" % subdir
         return ok and ok2
 
     # --- coverage bookkeeping
